@@ -414,15 +414,20 @@ Proof.
   - unfold p_parts, bWrap. apply bClose_last.
 Qed.
 
-(** for a trimmed, non-empty predicate [p]: if the letters WHERE do not occur in the statement before the
-    keyword (index, table and column names, expressions), the predicate the inspector reads back is [p] *)
+(** for a trimmed, non-empty predicate [p]: if no match of reIdxWhere starts before the closing parenthesis
+    of the index parts (")" + spaces + WHERE + white space inside a name or an expression of [index_head]),
+    the predicate the inspector reads back is [p].  (Before the fix of addIndexes the premise was: the
+    upper-case letters WHERE do not occur in the head at all.) *)
+Lemma trim_space_sp_cons s : trim_space (32 :: s) = trim_space s.
+Proof. reflexivity. Qed.
 Theorem index_predicate_print_index t i0 i p txt :
   normalize_idx_name i0 t = Some i -> i_pred i = Some p -> p <> [] -> trim_space p = p ->
   is_go_space (last_byte p) = false ->
-  occurs_cs K_WHERE (index_head t i) = false ->
-  print_index t i0 = Some txt -> index_predicate txt = Some p.
+  print_index t i0 = Some txt ->
+  no_start_before _ where_at txt (pred (length (index_head t i))) = true ->
+  index_predicate txt = Some p.
 Proof.
-  intros Hn Hp Hne Htr Hlp Hfree Hpi. unfold print_index in Hpi. rewrite Hn, Hp in Hpi.
+  intros Hn Hp Hne Htr Hlp Hpi Hns. unfold print_index in Hpi. rewrite Hn, Hp in Hpi.
   fold (index_head t i) in Hpi. destruct (index_head_good t i) as [(r & Hr & Hrn) Hl].
   set (b4 := index_head t i) in *.
   assert (bP (bP b4 [K_WHERE]) [p] = (b4 ++ [32] ++ K_WHERE ++ [32] ++ p) ++ [32]) as Hb.
@@ -438,7 +443,16 @@ Proof.
       by (cbn [app]; repeat rewrite <- app_assoc; reflexivity).
     rewrite last_byte_app by exact Hne. exact Hlp. }
   rewrite Ht in Hpi. injection Hpi as <-.
-  change (b4 ++ 32 :: 87 :: 72 :: 69 :: 82 :: 69 :: 32 :: p) with (b4 ++ 32 :: K_WHERE ++ ([32] ++ p)).
-  rewrite (index_predicate_printed b4 32 ([32] ++ p) Hfree) by (intros [H|[H|[H|[H|[H|[]]]]]]; discriminate).
-  f_equal. unfold trim_space. cbn [app skip_while]. change (is_go_space 32) with true. cbn iota. exact Htr.
+  assert (b4 <> []) as Hb4 by (rewrite Hr; discriminate).
+  destruct (exists_last Hb4) as (b5 & z & Eb).
+  assert (z = ch_rp) as -> by (rewrite Eb in Hl; rewrite last_byte_snoc in Hl; exact Hl).
+  destruct p as [|c p']; [contradiction|].
+  assert (b4 ++ [32] ++ K_WHERE ++ [32] ++ c :: p' = b5 ++ ch_rp :: [32] ++ K_WHERE ++ 32 :: c :: p') as Etxt
+    by (rewrite Eb; rewrite <- app_assoc; reflexivity).
+  match goal with |- index_predicate ?x = _ => change x with (b4 ++ [32] ++ K_WHERE ++ [32] ++ c :: p') end.
+  match type of Hns with no_start_before _ _ ?x _ = _ => change x with (b4 ++ [32] ++ K_WHERE ++ [32] ++ c :: p') in Hns end.
+  rewrite Etxt in Hns. rewrite Etxt.
+  rewrite (index_predicate_printed b5 [32] 32 c p'); [|reflexivity|reflexivity|].
+  - f_equal. rewrite trim_space_sp_cons. exact Htr.
+  - replace (length b5) with (pred (length b4)); [exact Hns|]. rewrite Eb, app_length. cbn [length]. rewrite Nat.add_1_r. reflexivity.
 Qed.
